@@ -65,14 +65,13 @@ Missing for the full `restore_exact`: that exit 0 is always reached on vsb-made 
 directory / symlink / metadata half. -/
 theorem restore_exact_partial (hashOf : List β → H) (group : List (Backup H β)) (target : Nat) (fs : FS β)
     (tb : Backup H β) (recs : List (MRec H))
-    (hdist : ∀ b ∈ group, ∀ recs, b.manifest = some recs → UniquePathsDistinct recs)
     (htb : group[target]? = some tb) (hrecs : tb.manifest = some recs)
     (h : restore hashOf group target = .done fs true)
     (r : MRec H) (hr : r ∈ recs) (content : List β)
     (hcontent : hashOf content = r.hash)      -- what the walk hashed for this record
     (hinj : ∀ d, hashOf d = hashOf content → d = content) :
     ∃ fp, manifestPathToFile r.path = some fp ∧ FileAt fs fp content := by
-  obtain ⟨fp, d, h1, h2, _, h4⟩ := exit0_sound_partial hashOf group target fs tb recs hdist htb hrecs h r hr
+  obtain ⟨fp, d, h1, h2, _, h4⟩ := exit0_sound hashOf group target fs tb recs htb hrecs h r hr
   have : d = content := hinj d (by rw [h4, hcontent])
   subst this
   exact ⟨fp, h1, h2⟩
